@@ -254,3 +254,20 @@ PROPS["C17"] = {
         "updates of id/phase are not generated (documented as unsupported); ctl keys are lower-case (C01 owns key case)",
     ],
 }
+
+PROPS["C13"] = {
+    "level": "exploration",
+    "runs": [run("TestC13", (3000, 3), (60000, 8), pair_variant="nomemo", pair_env="VERIF_C13_OUT")],
+    "rule": "cases = histories of 4..10 operations {build WAF from configuration i, close WAF j, probe WAF j} over 2..4 configurations that "
+            "reuse 1..2 strings in different roles (@pm S, regex key ARGS:/S/, ctl:...;ARGS:/S/, @restpath S, @validateNid us S, @rx S normal "
+            "and binary, SecAuditLogRelevantStatus S, @pmFromDataset with different content under one name, @pmFromFile resolved against "
+            "different root file systems, both SecRxPreFilter settings); oracle = every probe equals the same configuration built alone from "
+            "an empty cache, construction succeeds exactly when it succeeds alone, no panic; and the per-case outcomes of the default build "
+            "equal those of a second binary built with -tags coraza.no_memoize for the same seeds; non-trivial = two WAFs alive together and "
+            "an equal string in two roles or different content under one name, with at least one probe",
+    "essential": {"all": ["two-wafs-alive", "same-dataset-name-different-content", "same-file-name-different-root", "role:pm", "role:key-rx", "role:ctl-rx",
+                          "role:restpath", "role:nid", "role:rx", "role:binary-rx", "role:status", "role:dataset", "role:file"]},
+    "assumptions": COMMON_ASSUME + [
+        "rapid generates the same case sequence in both binaries for a given seed (verified per line by the case hash)",
+    ],
+}
